@@ -19,7 +19,7 @@ Both hypotheses are decidable predicates on the parse result; `wfTree`, which th
 answer of legs Pr and Pl, implies them up to the table facts listed at `chain_hyps_of_wfTree`.
 -/
 import RegexVerif.Props.C10Parser
-import RegexVerif.Lemmas.Chain
+import RegexVerif.Lemmas.ChainBridge
 
 namespace RegexVerif.Props.C10
 open RegexVerif RegexVerif.Reduce RegexVerif.Lemmas.Chain
@@ -104,5 +104,89 @@ theorem compile_and_run_no_fault_checked (E : Parser.Env) (rorc : Orc) (h : chai
     simp only [chainHypB, ht, Bool.and_eq_true] at h
     exact h
   exact (compile_and_run_no_fault_partial E.pat E.opts E.mco E.orc rorc (fun t ht => (hh t ht).1) (fun t ht => (hh t ht).2)).1
+
+/-- **`wfTree` gives J2 and J3.**  A raw tree that passes the decidable `Parser.wfTree` — what the driver evaluates on
+    every `ok` answer of leg Pr, and what `parse_wf` (not proved: `parse_wf_partial` gives the root) says of every tree
+    the parser returns —, whose Group nodes have `M = 0` (`groupsZero`) and whose capture tables have the shape
+    `assignNameSlots` leaves (`TablesOk`: 0 registered, keys ≤ MaxInt32, dense without a `Capnumlist`, a non-empty
+    `Capnumlist` of another length than `Captop` otherwise), satisfies both hypotheses of the chain theorem. -/
+theorem wfTree_gives_chain_hyps (t : Parser.RawTree) (hwf : Parser.wfTree t = true) (hz : groupsZero t.root = true)
+    (htb : TablesOk t.tables = true) : RawShapeOk t = true ∧ PrescanAgrees t = true :=
+  chain_hyps_of_wfTree t hwf hz htb
+
+/-- **C10 for Compile + match from `parse_wf`.**  The chain theorem with its hypotheses in the parser slice's terms:
+    if the tree the parser returns passes `wfTree` (with `groupsZero`, `TablesOk`), Compile returns a program or a parse
+    error and no attempt of the program (main or bool-only) ends in a fault. -/
+theorem compile_and_run_no_fault_of_wfTree (pattern : List Nat) (opts : Parser.Opts) (mco : Bool)
+    (orc : Parser.Oracles) (rorc : Orc)
+    (hwf : ∀ t, Parser.parse { pat := pattern, opts := opts, mco := mco, orc := orc } = .ok t →
+      Parser.wfTree t = true ∧ groupsZero t.root = true ∧ TablesOk t.tables = true) :
+    (match compilePattern rorc { pat := pattern, opts := opts, mco := mco, orc := orc } with
+     | .error e => ∃ code, e = .parse code
+     | .ok prog => ∀ (env : VM.Env) (pos : Int) (fuel : Nat), 0 ≤ pos → pos ≤ env.len →
+         ∃ s0, VM.init prog pos = .ok s0 ∧ ∀ f, (VM.run prog env fuel s0).1 ≠ .fault f) ∧
+    (match compilePatternQuick rorc { pat := pattern, opts := opts, mco := mco, orc := orc } with
+     | .error e => ∃ code, e = .parse code
+     | .ok none => True
+     | .ok (some qp) => ∀ (env : VM.Env) (pos : Int) (fuel : Nat), 0 ≤ pos → pos ≤ env.len →
+         ∃ s0, VM.init qp pos = .ok s0 ∧ ∀ f, (VM.run qp env fuel s0).1 ≠ .fault f) :=
+  compile_and_run_no_fault_partial pattern opts mco orc rorc
+    (fun t ht => (chain_hyps_of_wfTree t (hwf t ht).1 (hwf t ht).2.1 (hwf t ht).2.2).1)
+    (fun t ht => (chain_hyps_of_wfTree t (hwf t ht).1 (hwf t ht).2.1 (hwf t ht).2.2).2)
+
+/-! ### non-vacuity -/
+
+private def rawN (t : Parser.NT) (m n : Int) (kids : List Parser.RNode) : Parser.RNode := .mk t {} 0 [] none m n kids
+private def rawGroup (t : Parser.NT) (m n : Int) (body : List Parser.RNode) : Parser.RNode :=
+  rawN t m n [rawN .alternate 0 0 [rawN .concatenate 0 0 body]]
+
+/-- the raw tree of `(a)(?:b|\1)*` (dense numbering) -/
+def chainDemo : Parser.RawTree :=
+  { root := rawGroup .capture 0 (-1)
+      [rawGroup .capture 1 (-1) [.mk .one {} 97 [] none 0 0 []],
+       rawN .loop 0 2147483647 [rawN .group 0 0 [rawN .alternate 0 0
+         [rawN .concatenate 0 0 [.mk .one {} 98 [] none 0 0 []], rawN .concatenate 0 0 [rawN .ref 1 0 []]]]]],
+    tables := { caps := [0, 1], capnumlist := none, captop := 2, capnames := none, caplist := none } }
+
+/-- the raw tree of `(?<5>a)(?<-5>b)(?(5)c)` (sparse numbering: the writer remaps 5 ↦ 1; a balancing group) -/
+def chainDemoSparse : Parser.RawTree :=
+  { root := rawGroup .capture 0 (-1)
+      [rawGroup .capture 5 (-1) [.mk .one {} 97 [] none 0 0 []],
+       rawGroup .capture (-1) 5 [.mk .one {} 98 [] none 0 0 []],
+       rawN .backRefCond 5 0 [rawN .concatenate 0 0 [.mk .one {} 99 [] none 0 0 []]]],
+    tables := { caps := [0, 5], capnumlist := some [0, 5], captop := 6,
+                capnames := some [("0", 0), ("5", 5)], caplist := some ["0", "5"] } }
+
+/-- an oracle for the examples -/
+def chainOrc : Orc := { charIn := fun _ _ => false, overlap := fun _ _ => false, isWord := fun _ => true, isEcmaWord := fun _ => true }
+
+/-- the hypotheses of `wfTree_gives_chain_hyps` hold on both trees, and so do its conclusions (evaluated) -/
+example : Parser.wfTree chainDemo = true ∧ groupsZero chainDemo.root = true ∧ TablesOk chainDemo.tables = true ∧
+    Parser.wfTree chainDemoSparse = true ∧ groupsZero chainDemoSparse.root = true ∧ TablesOk chainDemoSparse.tables = true := by
+  decide
+example : RawShapeOk chainDemo = true ∧ PrescanAgrees chainDemo = true ∧
+    RawShapeOk chainDemoSparse = true ∧ PrescanAgrees chainDemoSparse = true := by decide
+/-- J1 applies, and its conclusion evaluated: the reduced trees keep their group numbers; a group number that is not
+    registered (`\2` in a pattern with one group) is rejected by the hypothesis -/
+example : (reduceTree chainOrc true chainDemo).ok = true ∧
+    Writer.capsOk (Writer.mainCfg (treeInfo false chainDemo)) (Writer.capsize (treeInfo false chainDemo))
+      (reduceTree chainOrc true chainDemo) = true :=
+  reduceTree_keeps_caps chainOrc true false chainDemo (by decide) (by decide)
+example : Writer.treeWf (treeInfo false chainDemoSparse) (reduceTree chainOrc true chainDemoSparse) = true := by decide
+example : PrescanAgrees { chainDemo with root := rawGroup .capture 0 (-1) [rawN .ref 2 0 []] } = false := by decide
+/-- the program of the reduced tree of `(a)(?:b|\1)*` never faults: the interpreter theorem applies through J1 -/
+example : ∃ s0, VM.init (Writer.emit (treeInfo false chainDemo) (reduceTree chainOrc true chainDemo)) 1 = .ok s0 ∧
+    ∀ f, (VM.run (Writer.emit (treeInfo false chainDemo) (reduceTree chainOrc true chainDemo)) Lemmas.VM.demoEnv 1000 s0).1 ≠ .fault f :=
+  emitted_no_fault_of_caps _ _ (reduceTree_keeps_caps chainOrc true false chainDemo (by decide) (by decide)).1
+    (reduceTree_keeps_caps chainOrc true false chainDemo (by decide) (by decide)).2 Lemmas.VM.demoEnv 1 (by decide) (by decide) 1000
+
+/-- the whole chain on pattern text: for the empty pattern and for `a` the kernel evaluates the parser and both
+    hypotheses (`(a)` already takes minutes), so `compile_and_run_no_fault_checked` applies to them without
+    hypotheses left -/
+example : chainHypB (env0 []) = true := by rfl
+set_option maxRecDepth 20000 in
+example : chainHypB (env0 [97]) = true := by rfl
+/-- a parse error is the other documented outcome: `)` -/
+example : compilePattern chainOrc (env0 [41]) = .error (.parse .unexpectedParen) := by rfl
 
 end RegexVerif.Props.C10
